@@ -151,6 +151,12 @@ def unNone {α : Type} (x : Option α) : Except Err α :=
   | some a => .ok a
   | none => .error .typeError
 
+/-- reading a local variable that was assigned on some paths only: UnboundLocalError when it was not -/
+def bound {α : Type} (x : Option α) : Except Err α :=
+  match x with
+  | some a => .ok a
+  | none => .error .unbound
+
 /-! ### `bisect.bisect_right` — the binary search CPython runs, on a list whose entries may be `None`
 (an ordering comparison with `None` is a TypeError).  `fuel` bounds the iterations (`len + 1` suffices). -/
 
